@@ -523,14 +523,26 @@ def gen(rng, tier):
                 yield Case("addrdec", ["p2tr", tx(SegwitBech32Encoder.Encode(hrp, v, bytes(rng.randrange(256) for _ in range(ln)))), "hrp=" + tx(hrp)], "directed-witprog")
         # Stellar addresses whose CRC16 has a zero high byte, built from the StrKey definition with stdlib pieces only
         import base64, binascii
-        for j in range(20000):
+        want = {"high", "low"}                      # one address of each kind per round: CRC high byte zero, CRC low byte zero
+        for j in range(40000):
             pub = pub_forms("ed25519", rand_priv(rng, "ed25519"))[0][1:]
             body = bytes([6 << 3]) + pub
             crc = binascii.crc_hqx(body, 0)
-            if crc < 0x100 or crc & 0xff == 0:
+            kind = "high" if crc < 0x100 else "low" if crc & 0xff == 0 else None
+            if kind in want:
+                want.discard(kind)
                 addr = base64.b32encode(body + crc.to_bytes(2, "little")).decode()
-                yield Case("addrdec", ["xlm", tx(addr), "addr_type=48"], "directed-xlm-crc-zero-byte")
-                break
+                yield Case("addrdec", ["xlm", tx(addr), "addr_type=48"], "directed-xlm-crc-zero-byte-" + kind)
+                if not want:
+                    break
+        # WIF of keys whose first byte is the network byte or whose last byte is the compression marker 0x01 (and 0x00), both modes and
+        # three network bytes: the payload layout (version || key [|| 01]) must be read by position, not by content
+        for nv in (b"\x80", b"\xef", b"\xb0"):
+            for k in (nv + bytes(rng.randrange(256) for _ in range(31)), bytes(rng.randrange(1, 256) for _ in range(31)) + b"\x01",
+                      bytes(rng.randrange(1, 256) for _ in range(30)) + b"\x01\x01", nv + bytes(rng.randrange(256) for _ in range(30)) + b"\x01",
+                      bytes(rng.randrange(1, 256) for _ in range(31)) + b"\x00"):
+                for mode in (WifPubKeyModes.COMPRESSED, WifPubKeyModes.UNCOMPRESSED):
+                    yield Case("wifdec", [tx(WifEncoder.Encode(k, nv, mode)), hx(nv)], "directed-wif-marker-bytes")
         sk, vk = (pub_forms("ed25519monero", rand_priv(rng, "ed25519monero"))[0] for _ in range(2))
         std = XmrAddrEncoder.EncodeKey(sk, pub_vkey=vk, net_ver=b"\x12")
         yield Case("addrdec", ["xmrint", tx(std), "net_ver=12", "payment_id=" + hx(bytes(8))], "directed-xmr-std-as-int")
